@@ -228,6 +228,8 @@ pub enum Widths {
     Classes,
     /// only the representative >= U
     Wide,
+    /// exactly these column widths (no claim about the others)
+    Fixed(&'static [usize]),
 }
 
 #[derive(Clone, Copy, Debug, PartialEq)]
@@ -625,6 +627,7 @@ fn run_task_inner(plan: &Plan, case: &Case, cfg: &Cfg, st: &mut Stats, fails: &m
         st.max_u = st.max_u.max(u);
         let mut widths: Vec<usize> = match plan.widths {
             Widths::Wide => vec![],
+            Widths::Fixed(ws) => ws.to_vec(),
             Widths::Classes => {
                 let mut v = vec![1];
                 if u / 2 > 1 {
@@ -645,7 +648,9 @@ fn run_task_inner(plan: &Plan, case: &Case, cfg: &Cfg, st: &mut Stats, fails: &m
                 }
             }
         };
-        widths.push(u.max(1));
+        if !matches!(plan.widths, Widths::Fixed(_)) {
+            widths.push(u.max(1));
+        }
         widths.dedup();
         let mut outputs: HashMap<String, usize> = HashMap::new();
         let _ = o_inf;
